@@ -242,7 +242,7 @@ PROPS["C16"] = dict(
 )
 
 PROPS["C11"] = dict(
-    bin="kv_sim", packages=["kv_sim"], args=[],
+    bin="kv_sim", packages=["kv_sim"], args=[], selfcheck=False,
     quick_s=60, thorough_s=600, level="exploration", also=[],
     rule=("the real RocksDB and Fjall backends on a scratch directory (removed after each run); 7 wide-column slots "
           "over 4 columns (byte-string keys with prefixed u8 discriminant and two value types under one key; String "
@@ -265,7 +265,7 @@ PROPS["C11"] = dict(
 )
 
 PROPS["C12"] = dict(
-    bin="codec_sim", packages=["codec_sim"], args=["--prop", "C12"],
+    bin="codec_sim", packages=["codec_sim"], args=["--prop", "C12"], selfcheck=False,
     quick_s=30, thorough_s=300, level="exploration", also=[],
     rule=("stream simulation driven by a value generator: 1-8 heterogeneous values of a universe of 80 concrete types "
           "closed under the provided constructors to depth 3 (ints of every width at every 7-bit varint boundary +-1 "
@@ -283,7 +283,7 @@ PROPS["C12"] = dict(
                  "the smallvec / bitvec feature build is not covered"],
 )
 PROPS["C13"] = dict(
-    bin="codec_sim", packages=["codec_sim"], args=["--prop", "C13"],
+    bin="codec_sim", packages=["codec_sim"], args=["--prop", "C13"], selfcheck=False,
     quick_s=30, thorough_s=300, level="exploration", also=[],
     rule=("43 concrete types (scalars, strings, sequences, options / results, tuples, boxes, ordered and unordered "
           "collections incl. nested ones, derived structs / enums); per case a value is generated, then (a) rebuilt "
@@ -300,7 +300,7 @@ PROPS["C13"] = dict(
                  "DashMap / DashSet filled by scheduled threads are not covered (sequential construction histories only)"],
 )
 
-HOOK_COMMITS = ["06b6edb", "0ffc033", "d5f7b95", "752f4f3"]
+HOOK_COMMITS = ["06b6edb", "0ffc033", "d5f7b95", "752f4f3", "281bdb8"]
 
 NOT_BUILT = "check not built yet (work in progress in this session; see DESIGN.md section 8 for the order of construction)"
 NOT_APPLICABLE = {
